@@ -15,3 +15,67 @@ Theorem slice_norm_correct :
     selects (normalize_slice (VSlice (oz a) (oz b) (oz c)) dim) = slice_selects a b c dim.
 Proof. exact slice_norm_correct_proof. Qed.
 Print Assumptions slice_norm_correct.
+
+(* ------------------------------------------------------------------------------------------
+   Part 2: x[index] on COO (Model/CooIndex.v = _slicing.normalize_index + _coo/indexing.getitem,
+   scalar decisions regenerated from /repo: Gen/G_slicing.v, Gen/S_indexing.v) against NumPy's
+   meaning of an index (Spec/NpIndex.v). *)
+From Coq Require Import Bool Sorting.Sorted Sorting.Permutation.
+From Verif Require Import Shape COO COOP NpIndex CooIndex CooIndexMaskP CooIndexNormP CooIndexP.
+
+(* (1) The cost heuristic of _compute_mask (when to stop narrowing start/stop pairs by binary search
+   and start filtering linearly) cannot matter: for lexicographically sorted coordinates and EVERY
+   cut-over position k the mask holds exactly the positions whose coordinates match every row
+   [start, stop, step] — as a set of positions always; as the same list when the rows that were
+   narrowed have positive steps (a negative step makes _get_mask_pairs visit the pairs backwards,
+   which is why getitem passes sorted=False to the constructor then). *)
+Theorem mask_strategy_irrelevant :
+  forall (pts : points) (inds : list triple),
+    StronglySorted lex_lt pts -> Forall row_ok inds -> points_long pts (length inds) ->
+    forall k,
+      Permutation (mask_positions (compute_mask k pts inds)) (mask_spec pts inds)
+      /\ (Forall (fun t => 0 < step_of t) (firstn k inds) ->
+          mask_positions (compute_mask k pts inds) = mask_spec pts inds).
+Proof. exact mask_strategy_irrelevant_perm. Qed.
+Print Assumptions mask_strategy_irrelevant.
+
+(* (2) Basic indices (integers, slices with any start/stop/step <> 0, None, Ellipsis), any canonical
+   COO array of any element type, whatever cut-overs kf the heuristic picks: NumPy rejects the index
+   with IndexError iff the code does; otherwise the result has NumPy's shape, keeps the fill value,
+   is canonical (the `sorted` flag getitem hands to the constructor is justified) and
+   x[ix][j] = x[NumPy's source index of j]; a scalar result is that element. *)
+Theorem coo_getitem_den :
+  forall (V : Type) (kf : nat -> nat) (x : coo V) (ix : index),
+    canonical V x -> shape_okb (c_shape x) = true -> no_zero_step ix = true -> basic ix = true ->
+    match np_index (c_shape x) ix with
+    | Raise e => getitem kf x ix = Raise e /\ e = IndexError
+    | Ok (sh', g) =>
+      match getitem kf x ix with
+      | Ok (GArr y) => c_shape y = sh' /\ c_fill y = c_fill x /\ canonical V y
+                       /\ forall j, in_range sh' j -> den y j = den x (g j)
+      | Ok (GScalar v) => sh' = [] /\ v = den x (g [])
+      | Raise _ => False
+      end
+    end.
+Proof. exact coo_getitem_basic_proof. Qed.
+Print Assumptions coo_getitem_den.
+
+(* (4) normalize_index raises IndexError exactly when NumPy rejects the index (out-of-range integer
+   or array entry, boolean array of the wrong length, too many indices, two ellipses), and raises
+   nothing else.  Full statement: without the hypothesis d29_clause.  It is FALSE of the code as it
+   stands (finding D29: NumPy lets a boolean index array of size 0 through on any axis, check_index
+   raises), see check_index_refuted; the proved part excludes exactly that. *)
+Theorem check_index_spec_partial :
+  forall (sh : shape) (ix : index),
+    shape_okb sh = true -> no_zero_step ix = true -> d29_clause sh ix = true ->
+    (normalize_index ix sh = Raise IndexError <-> resolve_all sh ix = Raise IndexError)
+    /\ (forall e, normalize_index ix sh = Raise e -> e = IndexError)
+    /\ (forall e, resolve_all sh ix = Raise e -> e = IndexError).
+Proof. exact check_index_spec_proof. Qed.
+Print Assumptions check_index_spec_partial.
+
+Theorem check_index_refuted :
+  exists sh ix, shape_okb sh = true /\ no_zero_step ix = true /\
+    normalize_index ix sh = Raise IndexError /\ resolve_all sh ix <> Raise IndexError.
+Proof. exact check_index_refuted_proof. Qed.
+Print Assumptions check_index_refuted.
